@@ -7,6 +7,30 @@ import (
 func allChecks() []*Check {
 	return []*Check{
 		{
+			ID: "C08", Title: "Each API call writes only whole, single IRC commands of its own verb",
+			Harnesses: []Harness{
+				{Pkg: "client", Func: "VerifC08Commands", Quick: map[string]int{"A": 2, "V": 2}, Thorough: map[string]int{"A": 4, "V": 2},
+					Asserts: []string{"no-crlf-in-line", "own-verb", "wire-is-line-crlf", "one-flush-per-line"}},
+			},
+			Bounds:      map[string]string{"quick": "all 28 exported command methods; every string argument 0..2 arbitrary bytes (all 256 values; Ctcp verb ASCII), 0..2 variadic elements, SplitLen in {-1,0,12,13,16,450}", "thorough": "same with arguments 0..4 bytes"},
+			Outside:     []string{"arguments longer than the bound (message splitting of long texts is C11)", "bytes >= 0x80 in the CTCP verb"},
+			Stubs:       []string{"bufio.Reader/Writer semantic model over the harness's in-memory net.Conn", "fmt.Sprintf/Sprintln = arbitrary text up to 2 bytes"},
+			QuickBudget: 5 * time.Minute, ThorBudget: 40 * time.Minute,
+		},
+		{
+			ID: "C11", Title: "Long messages are split losslessly into bounded pieces",
+			Harnesses: []Harness{
+				{Pkg: "client", Func: "VerifC11Split", Quick: map[string]int{"SMAX": 14, "EXTRA": 8}, Thorough: map[string]int{"SMAX": 16, "EXTRA": 14}},
+				{Pkg: "client", Func: "VerifC11SymLen"},
+				{Pkg: "client", Func: "VerifC11Wire", Quick: map[string]int{"EXTRA": 5}, Thorough: map[string]int{"EXTRA": 10}},
+				{Pkg: "client", Func: "VerifC11Default", Quick: map[string]int{"OVER": 0}, Thorough: map[string]int{"OVER": 2}},
+			},
+			Bounds:      map[string]string{"quick": "SplitLen 13..14 with texts of 0..SplitLen+8 bytes (all byte values but CR/LF); any SplitLen < 13 on the comparison; wire framing for 6 methods at SplitLen 13, text <= 18; default path at text length 450", "thorough": "SplitLen 13..16, texts up to SplitLen+14; wire text <= 23; default path 450..452 bytes with SplitLen in {-5,0,1,12}"},
+			Outside:     []string{"texts longer than the bound (more than ~2-4 loop iterations)", "multi-byte character integrity (as in the property)"},
+			Stubs:       []string{"strings.LastIndex as an ite-chain term (no fork)", "fmt.Sprintf = arbitrary text (Privmsgf)"},
+			QuickBudget: 5 * time.Minute, ThorBudget: 40 * time.Minute,
+		},
+		{
 			ID: "C01", Title: "Well-formed IRC messages parse to exactly the components that were sent",
 			Harnesses: []Harness{
 				{Pkg: "client", Func: "VerifC01Plain", Quick: map[string]int{"T": 1, "KL": 1, "VL": 2, "SL": 1, "VBL": 2, "M": 2, "ML": 2, "TL": 2},
